@@ -344,7 +344,18 @@ var roundGen = rapid.Custom(func(t *rapid.T) Round {
 	if rapid.IntRange(0, 2).Draw(t, "edit") > 0 { // otherwise: the same archive again
 		r.Edits = rapid.SliceOfN(editGen, 1, 6).Draw(t, "edits")
 	}
+	if rapid.IntRange(0, 2).Draw(t, "failBefore") == 0 { // a call that cannot succeed precedes the round
+		r.Fail = rapid.SliceOfN(failGen, 1, 2).Draw(t, "fail")
+	}
 	return r
+})
+
+var failGen = rapid.Custom(func(t *rapid.T) FailOp {
+	op := FailOp{Kind: rapid.SampledFrom(FailKinds).Draw(t, "failKind")}
+	if strings.HasPrefix(op.Kind, "unzip_") {
+		op.At = rapid.OneOf(rapid.IntRange(0, 999), rapid.SampledFrom([]int{0, 1, 500, 990, 999})).Draw(t, "failAt")
+	}
+	return op
 })
 
 func genTree(t *rapid.T) TreeCase {
@@ -392,6 +403,10 @@ func genTree(t *rapid.T) TreeCase {
 	// further rounds into the same destination path: removals in the destination, source edits (or none)
 	if rapid.IntRange(0, 2).Draw(t, "moreRounds") == 0 {
 		c.Rounds = rapid.SliceOfN(roundGen, 1, 3).Draw(t, "rounds")
+	}
+	// one case in six starts with calls that cannot succeed
+	if rapid.IntRange(0, 5).Draw(t, "failFirst") == 0 {
+		c.FailFirst = rapid.SliceOfN(failGen, 1, 2).Draw(t, "fails")
 	}
 	c.Filter = rapid.SampledFrom([]string{"nil", "nil", "suffix", "suffix", "dir", "notdir", "none"}).Draw(t, "filter")
 	switch c.Filter {
@@ -624,6 +639,18 @@ func TestReplay(t *testing.T) {
 		}
 		vstat.For(prop).Report(t, "TestReplay", c, v)
 		recordTree(c, info)
+		return
+	}
+	if env.Test == "TestC20Huge" {
+		var c HugeCase
+		if err := json.Unmarshal(env.Case, &c); err != nil {
+			t.Fatalf("cannot decode the huge case of %s: %v", p, err)
+		}
+		info, v := RunHuge(c)
+		if info.Infra != "" || info.Skip != "" {
+			t.Fatalf("infra: %s%s", info.Infra, info.Skip)
+		}
+		vstat.For(prop).Report(t, "TestReplay", c, v)
 		return
 	}
 	var c ArchiveCase
